@@ -4,7 +4,7 @@
    inputs are the layers below; their composition over a whole selection tree is evaluated per
    case on the generator model (RunResp.prop_c01), which is why the check is `partial`. *)
 From GC Require Import Base Rust Json TypeExpr TypeExprProofs Schema Query Codegen Enums Serde SerdeLemmas
-  RunSerde RunGen Conform RespProofs RunResp.
+  RunSerde RunGen Conform RespProofs Compose RunResp.
 
 (* the full statement (NOT proved as a whole): for every program the generator accepts whose
    operation needs no field merging, every conforming payload is accepted and re-serialises to the
@@ -69,6 +69,50 @@ Theorem C01_variant_partial : forall D tag variants m s v r,
   deser_tagged D tag variants m = Some r -> exists p, r = VVariant (v_ident v) p.
 Proof. exact tagged_selects_own. Qed.
 
+(* layer 5 — COMPOSITION, by certificate: for ANY item list the checker `plain_need` accepts for a
+   struct and a selection set (fields only, objects / scalars / enums / custom scalars, any nesting,
+   any list / non-null wrapping), every conforming payload of every size is accepted.  The checker
+   runs on the generator model's items per case (RunResp.certified); the theorem quantifies over
+   all payloads.  Interfaces, unions, fragments and ID leaves are outside the checker (it answers
+   None), so this is still a partial composition. *)
+Theorem C01_plain_checker_sound : forall s frags henv env fuel name t sels B,
+  plain_need s henv env fuel name t sels = Some B ->
+  forall F, B <= F -> forall Fj m, cobj s frags Fj t sels m = true ->
+  is_some (deser henv F env (RNamed name) (JObj m)) = true.
+Proof. exact plain_accepts. Qed.
+
+Theorem C01_certified_accepts_all_partial : forall s henv env doc op B,
+  certify s henv env doc op = Some B ->
+  forall F data, B <= F -> conforms s doc op data = true ->
+  is_some (deser henv F env (RNamed "ResponseData") data) = true.
+Proof. exact certified_accepts_all. Qed.
+
+(* the certificate is not vacuous: the generator model's items for a nested selection pass it *)
+Definition cert_example_schema : sdl_doc :=
+  mkSdl [DEnum "Color" ["RED"; "GREEN"]; DScalar "Date";
+         DObject "Person" [] [mkFD "name" (GNamed "String") None; mkFD "born" (GNamed "Date") None];
+         DObject "Dog" [] [mkFD "id" (GNonNull (GNamed "ID")) None; mkFD "tags" (GList (GNonNull (GNamed "ID"))) None;
+                           mkFD "nick" (GNamed "ID") None; mkFD "name" (GNonNull (GNamed "String")) None; mkFD "color" (GNamed "Color") None;
+                           mkFD "weights" (GNonNull (GList (GNonNull (GNamed "Float")))) None;
+                           mkFD "owner" (GNamed "Person") None; mkFD "friends" (GList (GNamed "Dog")) None];
+         DObject "Query" [] [mkFD "dogs" (GNonNull (GList (GNonNull (GNamed "Dog")))) None; mkFD "count" (GNonNull (GNamed "Int")) None]] None.
+Definition cert_example_doc : list qdef :=
+  [QOp OQuery (Some "Q") []
+     [SField None "count" [];
+      SField (Some "all") "dogs" [SField None "__typename" []; SField None "id" []; SField None "tags" [];
+                                  SField None "nick" []; SField None "name" []; SField None "color" [];
+                                  SField None "weights" [];
+                                  SField None "owner" [SField None "name" []; SField None "born" []];
+                                  SField None "friends" [SField (Some "n") "name" []]]]].
+Example C01_certificate_example :
+  match schema_of_sdl cert_example_schema with
+  | Ok s => match generate s cert_example_doc
+                     (mkOpts true (Some "Q") None None (Some "Serialize") None false None [] false false None None None) "" with
+            | Ok [m] => match certify s RunSerde.henv (m_items m) cert_example_doc "Q" with Some B => Nat.leb B 20 | None => false end
+            | _ => false end
+  | _ => false end = true.
+Proof. vm_compute. reflexivity. Qed.
+
 (* the known class is real: a conforming payload of a two-line program that the MODEL of the
    generated code rejects (the implementation agrees, see known_findings.json) *)
 Definition merging_witness_schema : sdl_doc :=
@@ -99,4 +143,7 @@ Print Assumptions C01_string_partial.
 Print Assumptions C01_enum_partial.
 Print Assumptions C01_struct_partial.
 Print Assumptions C01_variant_partial.
+Print Assumptions C01_plain_checker_sound.
+Print Assumptions C01_certified_accepts_all_partial.
+Print Assumptions C01_certificate_example.
 Print Assumptions C01_field_merging_refuted.
